@@ -202,10 +202,25 @@ func followDebugger(progs []string, visits [][]dbgVisit, steps []dbgStep, strict
 		names = append(names, name)
 		s.Spawn(name, func() { rig.eval(k) })
 	}
+	// every call into the debugger is bounded: a command which never returns is itself a finding (a leaked lock
+	// makes the thread it belongs to unreachable for every later command)
+	stuckCall := ""
+	call := func(what string, f func()) bool {
+		if stuckCall != "" {
+			return false
+		}
+		if _, hung := guarded(5*time.Second, f); hung != "" {
+			stuckCall = what + " (" + hung + ")"
+			return false
+		}
+		return true
+	}
 	finish := func() {
 		s.OpenAll()
 		for i := 0; i < 40; i++ {
-			rig.dbg.StopThreads(0)
+			if !call("StopThreads", func() { rig.dbg.StopThreads(0) }) {
+				return
+			}
 			if s.WaitDone(names, 50*time.Millisecond) {
 				return
 			}
@@ -339,26 +354,41 @@ func followDebugger(progs []string, visits [][]dbgVisit, steps []dbgStep, strict
 			}
 			st = stable()
 		case "StopThreads":
-			rig.dbg.StopThreads(0)
+			call("StopThreads", func() { rig.dbg.StopThreads(0) })
 			killing = true
 			st = stable()
 		case "SetBreak", "RmBreak", "DisableBreak":
 			l, _ := strconv.Atoi(step.Arg)
 			if step.A == "SetBreak" {
-				rig.dbg.SetBreakPoint("prog", l)
+				call("SetBreakPoint", func() { rig.dbg.SetBreakPoint("prog", l) })
 				bp[l] = true
 			} else if step.A == "DisableBreak" {
-				rig.dbg.DisableBreakPoint("prog", l)
+				call("DisableBreakPoint", func() { rig.dbg.DisableBreakPoint("prog", l) })
 				delete(bp, l)
 			} else {
-				rig.dbg.RemoveBreakPoint("prog", l)
+				call("RemoveBreakPoint", func() { rig.dbg.RemoveBreakPoint("prog", l) })
 				delete(bp, l)
 			}
+		}
+		if stuckCall != "" {
+			res.sig = "C15 debugger command does not return"
+			res.violation = fmt.Sprintf("step %d %s(t%d %s): the call %s never returned - the threads it manages cannot be reached any more", i, step.A, step.T, step.Arg, stuckCall)
 		}
 		if st == nil || res.drift != "" || res.violation != "" {
 			break
 		}
 		if lostWakeup(st) {
+			break
+		}
+		// in a stable state every command has returned and every other thread stands at a gate or waits for a
+		// command: a thread that waits for a lock then waits for a lock nobody is going to release
+		for t := range progs {
+			if w := where(st, t); strings.Contains(w, "Mutex.Lock") {
+				res.sig = "C15 thread blocked on a debugger lock which is never released"
+				res.violation = fmt.Sprintf("after step %d %s(t%d %s): thread %d is %s while no command is in progress - it cannot be suspended, described or continued any more", i, step.A, step.T, step.Arg, rig.tids[t], w)
+			}
+		}
+		if res.violation != "" {
 			break
 		}
 		// a thread reported as suspended is released by the next continue addressed to it: once it is past its gate
@@ -427,11 +457,14 @@ func followDebugger(progs []string, visits [][]dbgVisit, steps []dbgStep, strict
 	if res.violation == "" {
 		s.OpenAll()
 		ended := false
-		for i := 0; i < 40 && !ended; i++ {
-			rig.dbg.StopThreads(0)
+		for i := 0; i < 40 && !ended && stuckCall == ""; i++ {
+			call("StopThreads", func() { rig.dbg.StopThreads(0) })
 			ended = s.WaitDone(names, 50*time.Millisecond)
 		}
-		if !ended {
+		if stuckCall != "" {
+			res.sig = "C15 debugger command does not return"
+			res.violation = "after the behaviour: the call " + stuckCall + " never returned"
+		} else if !ended {
 			states := sched.GoroutineStates()
 			_ = states
 			res.sig = "C15 StopThreads leaves a thread suspended"
@@ -758,9 +791,11 @@ func C15(r *ev.Run) {
 	}
 
 	// 3. follow (direction A): the wake-up losing schedule of the pinned code, then the simulated behaviours of the code's model
+	refuted := 0
 	report := func(kind string, prog int, steps []dbgStep, fr *followResult) {
 		r.Case(fmt.Sprintf("%s/%d/%v", kind, len(steps), steps), len(steps) > 4)
 		if fr.violation != "" {
+			refuted++
 			r.Violation(fr.sig, fr.violation+fmt.Sprintf(" (after step %d of a %s behaviour)", fr.steps, kind), map[string]interface{}{"kind": kind, "steps": steps, "at": fr.steps})
 		}
 	}
@@ -811,6 +846,9 @@ func C15(r *ev.Run) {
 			if len(steps) < 3 {
 				continue
 			}
+			if refuted >= 12 {
+				break // enough refuted behaviours: every further one costs the bounds of the stuck calls
+			}
 			fr := followDebugger(fprogs, fvisits, steps, true)
 			report("simulated", nprog, steps, fr)
 			followed++
@@ -827,7 +865,7 @@ func C15(r *ev.Run) {
 	}
 	r.Set("behaviours_followed", followed)
 	r.Set("behaviours_drifted", drifted)
-	if followed < 20 {
+	if followed < 20 && refuted < 12 {
 		r.Inconclusive("too few behaviours could be followed")
 		return
 	}
